@@ -74,7 +74,7 @@ pub fn run_classes(which: &'static str, tier: &str, seed: u64, plans: &[ClassPla
   }
   for plan in plans {
     let class = plan.name;
-    let parts = util::parallel(plan.n, threads, 64, Report::new, |i, rep: &mut Report| {
+    let parts = util::parallel(plan.n, threads, 512, Report::new, |i, rep: &mut Report| {
       let case = make_case(class, seed, i);
       let opts = opts_for(which, class, tier, seed, i);
       rep.sample(|| case.to_json());
